@@ -93,16 +93,21 @@ func runSaneME(strict bool, v int, hfsts6 uint32, msr uint64) verd {
 // judgeSane: the provisioning verdict against the named disqualifying conditions of the status
 // word hfsts6 (the HFSTS6 of the ME device) and MSR 13Ah
 func judgeSane(c *gal.Ctx, idx int, strict bool, v int, hfsts6 uint32, msr uint64, got verd, d interface{}) {
+	judgeSaneAt(c, idx, "", strict, v, hfsts6, msr, got, d)
+}
+
+// where: what was called on which platform (prefix of the messages)
+func judgeSaneAt(c *gal.Ctx, idx int, where string, strict bool, v int, hfsts6 uint32, msr uint64, got verd, d interface{}) {
 	dq := meDisqualified(strict, v, hfsts6, msr)
 	switch {
 	case got.Panic:
-		c.OracleFail(idx, "ME provisioning verdict panicked: "+got.Msg, siteME, d)
+		c.OracleFail(idx, where+"ME provisioning verdict panicked: "+got.Msg, siteME, d)
 	case got.OK && len(dq) > 0:
-		c.OracleFail(idx, fmt.Sprintf("fail-closed violated: success reported although %v", dq), siteME+":SaneMEBootGuardProvisioning", d)
+		c.OracleFail(idx, where+fmt.Sprintf("fail-closed violated: success reported although %v", dq), siteME+":SaneMEBootGuardProvisioning", d)
 	case !got.OK && len(dq) == 0:
-		c.OracleFail(idx, "a correctly provisioned ME/Boot Guard configuration is rejected: "+got.Msg, siteME+":SaneMEBootGuardProvisioning", d)
+		c.OracleFail(idx, where+"a correctly provisioned ME/Boot Guard configuration is rejected: "+got.Msg, siteME+":SaneMEBootGuardProvisioning", d)
 	case got.OK == got.E1:
-		c.OracleFail(idx, fmt.Sprintf("result and error disagree: %+v", got), siteME, d)
+		c.OracleFail(idx, where+fmt.Sprintf("result and error disagree: %+v", got), siteME, d)
 	default:
 		c.OracleOK()
 	}
